@@ -265,4 +265,8 @@ def run(tier):
                        "`Array.prototype.<method>.call(arrayLike, ..)` succeeds for one direction and throws for the other" % (strict.path.split("::")[-1], loose.path.split("::")[-1]))
     import inplace
     inplace.rule(fx, ck)
+    # R3b: an exception handler runs in the scope of its try statement (the rule is shared with C14 R5: the same missing unwind
+    # leaks the scopes *and* lets the handler read the inner bindings)
+    import c14
+    c14.handler_unwind(fx, ck, name="R3b.handler-scope")
     return ck.finish()
